@@ -224,6 +224,10 @@ def shard(shard_no, nshards, seed, tier, extra):
         r = rng.random()
         if r < 0.6:
             code, feats = progs.multi_evidence(rng)
+        elif r < 0.68:
+            pool = layoutgen.aliasing_pool(rng)
+            gt = layoutgen.random_ground_truth(rng, nvars=rng.randint(2, min(6, len(pool))), slot_pool=pool)
+            code, feats = layoutgen.build(gt, rng), {"layoutgen", "aliasing-slots"}
         elif r < 0.8:
             gt = layoutgen.random_ground_truth(rng, nvars=rng.randint(1, 6))
             code, feats = layoutgen.build(gt, rng), {"layoutgen"}
@@ -248,7 +252,8 @@ def run(tier, seed, t0):
         PROP, tier, seed, res, "exploration",
         "multi-evidence programs (each slot gets 2-4 pieces of evidence out of: dynamic-array access, mapping access, "
         "bool write, address write, masked write, packed write, signed use, numeric use, copy from another slot, plain "
-        "read, bytes32 compare - in separate dispatch branches), ground-truth layouts, read-mask-write programs and "
+        "read, bytes32 compare - in separate dispatch branches), ground-truth layouts (also over slot numbers that agree "
+        "in their low or high 32..192 bits), read-mask-write programs and "
         "(mutated) small real contracts; each analysed N times naturally (fresh RandomState per HashMap; 16 worker "
         "processes), under K explicit hash seeds (getrandom shim) and with the unification fold order forced to sorted / "
         "reversed / seeded shuffles. distinct = (bytecode, config); non-trivial = layout with at least one entry",
